@@ -368,6 +368,46 @@ func rewriteChanRange(r *ast.RangeStmt) ast.Stmt {
 	return blk
 }
 
+var mapRng = map[string]bool{}
+
+func isMapRange(r *ast.RangeStmt) bool {
+	switch v := r.X.(type) {
+	case *ast.Ident:
+		return mapRng[v.Name]
+	case *ast.SelectorExpr:
+		return mapRng[v.Sel.Name]
+	}
+	return false
+}
+
+// rewriteMapRange turns `for k, v := range m` into a loop over vsched.MapOrder(m) (sorted keys,
+// permuted by an explorer choice). Entries deleted during the iteration are skipped, as Go does;
+// entries added during it are not visited (Go may or may not visit them).
+func rewriteMapRange(r *ast.RangeStmt) ast.Stmt {
+	used = true
+	if r.Tok != token.DEFINE && !(r.Key == nil && r.Value == nil) {
+		fmt.Fprintln(os.Stderr, "vinstr: -maprange needs := in", label(r))
+		os.Exit(1)
+	}
+	kv := tmp("mk")
+	okv := tmp("ok")
+	mv := tmp("mm")
+	val := "_"
+	if r.Value != nil {
+		val = src(r.Value)
+	}
+	code := "{\n" + mv + " := " + src(r.X) + "\nfor _, " + kv + " := range vsched.MapOrder(" + mv + ") {\n" + val + ", " + okv + " := " + mv + "[" + kv + "]\nif !" + okv + " {\ncontinue\n}\n"
+	if r.Key != nil && src(r.Key) != "_" {
+		code += src(r.Key) + " := " + kv + "\n_ = " + src(r.Key) + "\n"
+	}
+	code += "_vsBODY()\n}\n}"
+	blk := parseStmt(code).(*ast.BlockStmt)
+	loop := blk.List[1].(*ast.RangeStmt)
+	n := len(loop.Body.List)
+	loop.Body.List = append(loop.Body.List[:n-1], r.Body.List...)
+	return blk
+}
+
 func isChanRange(r *ast.RangeStmt) bool {
 	switch v := r.X.(type) {
 	case *ast.Ident:
@@ -408,6 +448,16 @@ func processList(list []ast.Stmt) []ast.Stmt {
 			out = append(out, rewriteSelect(v, lbl)) // label moves onto the dispatch switch
 			continue
 		case *ast.RangeStmt:
+			if isMapRange(v) {
+				v.Body.List = processList(v.Body.List)
+				ns := rewriteMapRange(v)
+				if ls != nil {
+					blk := ns.(*ast.BlockStmt)
+					blk.List[1] = &ast.LabeledStmt{Label: ls.Label, Stmt: blk.List[1]}
+				}
+				out = append(out, ns)
+				continue
+			}
 			if isChanRange(v) {
 				v.Body.List = processList(v.Body.List)
 				ns := rewriteChanRange(v)
@@ -464,13 +514,14 @@ func walkChildren(n ast.Node) {
 
 func main() {
 	var in, out string
-	var consts, redirects, ranges, atomics, imports multi
+	var consts, redirects, ranges, atomics, imports, mapRanges multi
 	var noSync, noTime, noChan bool
 	flag.StringVar(&in, "in", "", "input file")
 	flag.StringVar(&out, "out", "", "output file")
 	flag.Var(&consts, "const", "name=value")
 	flag.Var(&redirects, "redirect", "Func or Type.Method to rename to <name>_orig")
 	flag.Var(&ranges, "chanrange", "identifier/field name that is a channel when ranged over")
+	flag.Var(&mapRanges, "maprange", "identifier/field name that is a map when ranged over: iteration order becomes an explorer choice")
 	flag.Var(&atomics, "atomicpoint", "field name whose atomic operations become scheduling points")
 	flag.Var(&imports, "import", "old=new import path rewrite (local name kept), e.g. net=github.com/VKCOM/statshouse/internal/verif/vnet")
 	flag.BoolVar(&noSync, "nosync", false, "do not rewrite import sync")
@@ -482,6 +533,9 @@ func main() {
 	}
 	for _, a := range atomics {
 		atomicPt[a] = true
+	}
+	for _, r := range mapRanges {
+		mapRng[r] = true
 	}
 	fileBase = in
 	if i := strings.LastIndex(in, "/"); i >= 0 {
